@@ -25,7 +25,7 @@ func init() {
 		Explanation: `R12.1 end of series on every path: writeMessages and the empty-new-file shortcut of Do end with a Control whose Eof is true; R07.1 (shared) partition arithmetic cannot divide by zero; ` +
 			`R12.2 old-offset accounting in IndividualPatchContext.Apply: the cache is positioned at OldOffset before the add phase and every success path advances OldOffset by len(Add) (when non-empty) and by Seek; ` +
 			`R12.3 the read cache's slot bookkeeping: a chunk is stored in a slot whose allocation is free, the slot is marked, eviction (registered with the LRU) frees exactly the evicted chunk's slot, Reset frees all slots and purges; ` +
-			`R15.3 (shared) matches reach the writer through a single sender in block order; R12.4 suffix sorting and searching only on non-empty input; R12.5 the scan-block count and scan-block size (found by role in the worker literal) are each computed from the other whenever they are set, or the other is recomputed before the workers start; R16.8 (shared) helper goroutines are waited for only after they were released; R10.swallow (shared) a failed chunk/storage call never ends in success. R12.7 a success return of getChunk that does not pass lru.Get depends only on fields that Reset assigns on every path. NOT decided: that add+copy tile the new file, the suffix-array search, index arithmetic of the cache's Read.`,
+			`R15.3 (shared) matches reach the writer through a single sender in block order; R12.4 suffix sorting and searching only on non-empty input; R12.5 the scan-block count and scan-block size (found by role in the worker literal) are each computed from the other whenever they are set, or the other is recomputed before the workers start; R16.8 (shared) helper goroutines are waited for only after they were released; R10.swallow (shared) a failed chunk/storage call never ends in success. R12.7 a success return of getChunk that does not pass lru.Get depends only on fields that Reset assigns on every path. R12.8 a failure return of the read cache's Seek lies behind a comparison of the resulting position (not the bare offset argument, except under whence == SeekStart) or behind 'no known whence'. R04.7 (shared) rediff's path-to-index map is keyed by the path itself. NOT decided: that add+copy tile the new file, the suffix-array search, index arithmetic of the cache's Read.`,
 		Run: runC12,
 	})
 }
@@ -573,6 +573,8 @@ func runC12(c *core.Ctx) {
 	ruleNoJoinBeforeRelease(c, "R16.8", 3, 1, "/bsdiff")
 	ruleBlockLayoutCoupled(c, "R12.5")
 	ruleCacheBypassIsForgotten(c, "R12.7")
+	ruleCacheSeekRefusesOnlyTheImpossible(c, "R12.8")
+	rulePathKeysAreOneToOne(c, "R04.7", 2, func(fn *ssa.Function) bool { return strings.HasSuffix(core.PkgPathOf(fn), "/pwr/rediff") })
 	c.Rule("R12.1", "end-of-series on every path")
 	c.Rule("R07.1", "no division by a possibly-zero quotient (shared)")
 	c.Rule("R12.2", "old offset accounting in Apply")
@@ -1201,4 +1203,115 @@ func ruleDecompressAsDeclared(c *core.Ctx, rule string) {
 		})
 	}
 	c.Floor(rule, "DecompressWire call sites", n, 3)
+}
+
+// ruleCacheSeekRefusesOnlyTheImpossible (R12.8): the read cache's Seek fails only for a whence it does not
+// know or for a resulting position outside the file. A failure return is accepted when, among the outcomes
+// it lies behind, there is (a) a comparison of something computed from the cursor/size (not the bare offset
+// parameter), or (b) the 'no case matched' outcome of the whence switch (whence compared unequal with
+// every constant it is compared with at all), or (c) a comparison of the bare offset under whence ==
+// SeekStart (there the offset is the position). A refusal decided by the bare offset under any other
+// whence turns away legal seeks (a negative offset relative to the cursor or to the end).
+func ruleCacheSeekRefusesOnlyTheImpossible(c *core.Ctx, rule string) {
+	c.Rule(rule, "the read cache's Seek refuses only an unknown whence or a position outside the file")
+	fn := c.P.Fn("bsdiff/lrufile", "lruFile.Seek")
+	if fn == nil {
+		c.Missing(rule, "bsdiff/lrufile.(*lruFile).Seek", "not found")
+		return
+	}
+	if len(fn.Params) < 3 {
+		c.Missing(rule, "bsdiff/lrufile.(*lruFile).Seek", "unexpected signature")
+		return
+	}
+	offP, whP := fn.Params[1], fn.Params[2]
+	onlyParam := func(v ssa.Value, p *ssa.Parameter) bool {
+		os := core.Origins(v)
+		if len(os) == 0 {
+			return false
+		}
+		for _, o := range os {
+			if core.StripConv(o) != ssa.Value(p) {
+				return false
+			}
+		}
+		return true
+	}
+	whenceConsts := map[int64]bool{}
+	core.Instrs(fn, func(in ssa.Instruction) {
+		if bo, ok := in.(*ssa.BinOp); ok && (bo.Op == token.EQL || bo.Op == token.NEQ) {
+			if onlyParam(bo.X, whP) {
+				if k, isK := core.ConstInt(bo.Y); isK {
+					whenceConsts[k] = true
+				}
+			}
+		}
+	})
+	success := map[*ssa.Return]bool{}
+	for _, rs := range successReturns(fn) {
+		success[rs.Ret] = true
+	}
+	n := 0
+	for _, rs := range core.Returns(fn, -1) {
+		if success[rs.Ret] {
+			continue
+		}
+		n++
+		judge := func(gs []core.Guard) bool {
+			posCmp, bareCmp, atStart := false, false, false
+			unequal := map[int64]bool{}
+			for _, g := range gs {
+				bo, ok := g.Cond.(*ssa.BinOp)
+				if !ok {
+					continue
+				}
+				if onlyParam(bo.X, whP) {
+					if k, isK := core.ConstInt(bo.Y); isK {
+						if (bo.Op == token.EQL && !g.Val) || (bo.Op == token.NEQ && g.Val) {
+							unequal[k] = true
+						}
+						if k == 0 && ((bo.Op == token.EQL && g.Val) || (bo.Op == token.NEQ && !g.Val)) {
+							atStart = true
+						}
+					}
+					continue
+				}
+				switch bo.Op {
+				case token.LSS, token.LEQ, token.GTR, token.GEQ:
+					if onlyParam(bo.X, offP) || onlyParam(bo.Y, offP) {
+						bareCmp = true
+					} else {
+						posCmp = true
+					}
+				}
+			}
+			noCase := len(whenceConsts) > 0 && len(unequal) == len(whenceConsts)
+			return posCmp || noCase || (bareCmp && atStart)
+		}
+		// a || b reaches the return over two edges, neither outcome dominating: judge every edge into the
+		// returning block (and, one step further, into a block that only forwards)
+		var edgeOK func(b *ssa.BasicBlock, depth int) bool
+		edgeOK = func(b *ssa.BasicBlock, depth int) bool {
+			if judge(core.BlockGuards(b)) {
+				return true
+			}
+			if len(b.Preds) == 0 || depth > 3 {
+				return false
+			}
+			for _, p := range b.Preds {
+				if judge(core.EdgeGuards(p, b)) {
+					continue
+				}
+				if _, isIf := p.Instrs[len(p.Instrs)-1].(*ssa.If); !isIf && edgeOK(p, depth+1) {
+					continue
+				}
+				return false
+			}
+			return true
+		}
+		ok := edgeOK(rs.Ret.Block(), 0)
+		c.Check(ok, rule, core.FnName(fn), "failure return decided by the whence or the resulting position", core.InstrPos(rs.Ret),
+			"the refusal lies behind a test of the resulting position, or behind 'no known whence'",
+			"Seek refuses a call on the strength of its bare offset argument (under a whence other than SeekStart) or of nothing at all: a negative offset relative to the cursor or to the end is a legal seek, and after the refusal the cursor is not where the caller's sequence of seeks and reads puts it")
+	}
+	c.Floor(rule, "failure returns of the read cache's Seek", n, 1)
 }
